@@ -381,6 +381,48 @@ def dead_check(case, ctx):
     return res
 
 
+# ---- hand-written units for shapes no generator reaches ----------------------------------------------------------------
+
+SPECIAL_UNITS = [
+    # C23 functions without named parameters: definition, direct and indirect calls (the call must carry the marker)
+    "int vz(...) { return 0; }\nint u1(void) { return vz(1, 2.0) + vz(); }\nint (*vzp)(...) = vz;\nint u2(double d) { return vzp(d, 3l, (char)1); }\n",
+    "void vq(...);\ntypedef void VQ(...);\nVQ *vqp = vq;\nvoid u3(void) { vq(); vq(1); vqp(2.5f); (*vqp)(); }\nvoid vq(...) { }\n",
+    "int vm(int n, ...) { return n; }\nint u4(void) { return vm(0) + vm(1, 2) + vm(2, 1.5, \"s\"); }\n",
+    # calls through expressions, aggregates by value through pointers, unnamed parameters of every class
+    "struct P { long a, b, c; };\nstruct P id(struct P);\nstruct P (*idp)(struct P) = id;\nlong u5(struct P *p) { return idp(*p).b + (*idp)(id(*p)).c; }\n",
+    "double un(int, double, struct { int k; } *, float) { return 1; }\ndouble u6(void) { return un(1, 2, 0, 3); }\n",
+    # empty function bodies, functions that only loop or only trap, empty switch, switch with only default
+    "void e1(void) { }\nvoid e2(void) { for (;;) ; }\n_Noreturn void die(void);\nint e3(void) { die(); }\nint e4(int x) { switch (x) { } return x; }\nint e5(int x) { switch (x) { default: return 1; } }\n",
+    "int g1(int x) { goto l; { int y = x; l: return y + 1; } }\nint g2(int x) { if (x) goto end; x++; end: ; return x; }\nvoid g3(void) { l1: goto l1; }\n",
+    # nested short-circuit and conditional operators in every position
+    "int s1(int a, int b, int c) { return (a && b) || (c ? a || b : b && (c || a)); }\nint s2(int a, int b) { return !(a && b) ? (a ? b : !b) : a || b ? 1 : 2; }\nint s3(int a) { return a ? 1 : a ? 2 : a ? 3 : 4; }\n",
+    # recursive and mutually referring aggregate types in parameters and returns
+    "struct L { struct L *next; int v; };\nstruct T { struct L head; struct T *kids[2]; };\nstruct T mk(struct L l) { struct T t = { l, { 0, 0 } }; return t; }\nstruct L hd(struct T t) { return t.head; }\n",
+]
+
+
+def special_enum(ctx):
+    for i in range(len(SPECIAL_UNITS)):
+        yield {"unit": i}
+
+
+def special_check(case, ctx):
+    res = Result()
+    src = SPECIAL_UNITS[case["unit"]].encode()
+    for t in cproc.TARGETS:
+        p = cproc.cc(ctx, src, t, "plain", timeout=60)
+        res.n += 1
+        if p.timeout or p.rc != 0:
+            res.fail = dict(sig="", msg="hand-written valid unit %d rejected (%s): %s" % (case["unit"], t, p.err.decode(errors="replace")[:200]), input=src.decode())
+            break
+        check_il(ctx, p, res, "special/%s" % t, src, t, with_clang=False)
+        if res.fail is not None:
+            res.fail["input"] = src.decode()
+            break
+    res.sample = {"source": "special", "head": src.decode()[:120]}
+    return res
+
+
 def gen_sources(ctx):
     try:
         from . import c01
@@ -399,4 +441,5 @@ def sources(ctx):
         Source("byvalue", byvalue_check, strategy=lambda c: __import__("vlib.props.c08", fromlist=["x"]).struct_cases(), examples={"quick": 600, "thorough": 20000}),
         Source("units", units_check, strategy=lambda c: __import__("vlib.props.c09", fromlist=["x"]).units(), examples={"quick": 300, "thorough": 10000}),
         Source("deadcode", dead_check, enum=dead_enum, exhaustive=True),
+        Source("special", special_check, enum=special_enum, exhaustive=True),
     ] + gen_sources(ctx)
